@@ -78,6 +78,13 @@ def gen_cases(ctx, ngroups):
             P = clean_bytes(r, off) + marker + clean_bytes(r, r.randrange(0, 20)) + decoy_header(r) + clean_bytes(r, r.randrange(13, 60))
             out.append(Case(A.rdr_op(r.choice(A.KINDS), pol, toks, P + d), tags={"decoy", "marker=" + marker[:3].decode()},
                             note=("same", gid, len(P))))
+        # NEAR-MISS markers: bytes that begin like a self-extractor marker but are not one (another version's banner, the marker cut
+        # short, wrong case): neither a marker nor a signature, so the first header behind them is the archive's first member
+        for _ in range(3):
+            near = r.choice([b"LhASFX V1.1,", b"LhASFX V1.2.", b"LhASFX V1.2", b"LhASFX ", b"LhASFX", b"LHA-SF", b"LHA-SFx", b"LHA-sfx", b"lha-sfx",
+                             b"LhASFX V2.0,", b"LHA-SF\x00", b"LhASFX\x00V1.2,"])
+            P = clean_bytes(r, r.randrange(0, 73)) + near + clean_bytes(r, r.randrange(1, 40))
+            out.append(Case(A.rdr_op(r.choice(A.KINDS), pol, toks, P + d), tags={"prefix", "near-miss-marker"}, note=("same", gid, len(P))))
         # skip lengths: stored members whose data (or whose rest after a partial read) is passed over in blocks – exact multiples
         # of the block sizes a read-based skip could use, one more, one less – by every kind of source, with and without reading
         from vlib import streams as S
